@@ -712,8 +712,17 @@ func (w *lifeW) failingConnect(kind int) {
 		w.c.Config().Server = ""
 		err = w.c.Connect()
 		w.c.Config().Server = old
-		if len(e.Dials) != dials {
-			e.Violation("connect-refused", "Connect with no server configured dialled %q", e.Dials[len(e.Dials)-1])
+		// (only dials made on this task: another task's redundant Connect may be
+		// dialling at the same time, and may even have read the emptied field)
+		self := ""
+		if t := e.S.Self(); t != nil {
+			self = t.ID
+		}
+		for k := dials; k < len(e.Dials); k++ {
+			if e.DialTasks[k] == self {
+				e.Violation("connect-refused", "Connect with no server configured dialled %q", e.Dials[k])
+				break
+			}
 		}
 		e.S.Count("fault.connect-without-server")
 	case 1:
